@@ -9,9 +9,9 @@ ENGINE_CFG = {"time_mode": "ns64"}
 INSTALL = [sched.install]
 HARNESSES = [{"name": "reentry", "fn": P + "VerifC16Reentry", "bounds": "2 clocks"}]
 for n in range(1, 7):
-    HARNESSES.append({"name": "collect%d" % n, "fn": P + "VerifC16Collect%d" % n, "bounds": "%d clocks, every success/failure pattern, every arrival order, deadline firing at any point" % n, "thorough_only": n > 4, "cfg": {"unwind": {P + "collectMeasurements": n + 1, P + "collectMeasurements$1": n + 1}}})
-HARNESSES.append({"name": "count3", "fn": P + "VerifC16Count3", "bounds": "3 senders", "cfg": {"unwind": {P + "collectMeasurements": 4, P + "collectMeasurements$1": 4}}})
-HARNESSES.append({"name": "count5", "fn": P + "VerifC16Count5", "bounds": "5 senders", "thorough_only": True, "cfg": {"unwind": {P + "collectMeasurements": 6, P + "collectMeasurements$1": 6}}})
+    HARNESSES.append({"name": "collect%d" % n, "fn": P + "VerifC16Collect%d" % n, "bounds": "%d clocks, every success/failure pattern, every arrival order, deadline firing at any point" % n, "thorough_only": n > 4, "synctest": True, "native_feasible": sched.native_feasible, "unwind_is_violation": True, "replay_timeout": 20, "cfg": {"unwind": {P + "collectMeasurements": n + 1, P + "collectMeasurements$1": n + 1}}})
+HARNESSES.append({"name": "count3", "fn": P + "VerifC16Count3", "bounds": "3 senders", "synctest": True, "native_feasible": sched.native_feasible, "unwind_is_violation": True, "replay_timeout": 20, "cfg": {"unwind": {P + "collectMeasurements": 4, P + "collectMeasurements$1": 4}}})
+HARNESSES.append({"name": "count5", "fn": P + "VerifC16Count5", "bounds": "5 senders", "thorough_only": True, "synctest": True, "native_feasible": sched.native_feasible, "unwind_is_violation": True, "replay_timeout": 20, "cfg": {"unwind": {P + "collectMeasurements": 6, P + "collectMeasurements$1": 6}}})
 ASSUMPTIONS = ["scheduler model (symex/sched.py): goroutine bodies run at the spawn point up to completion, their sends are pending until received in an arbitrary order; a select takes any ready case; the context may fire at any select; a select at which nothing is ever ready (no deadline and a clock that never answers) is outside the model",
                "wall-clock lateness of the Go scheduler and the runtime itself are outside the claim"]
 EXPLANATION = ""
